@@ -81,6 +81,8 @@ var vfHostileStrings = []string{
 	"2001-01-01", "12:30:45", "<<", "=", "- x", "a: b", "#c", " lead", "trail ", "multi\nline\n", "tab\there",
 	"é", "日本", "quote\"d", "it's", "{a: b}", "[1, 2]", "*alias", "&anchor", "!tag", "%dir", "@at", "`tick`",
 	"back\\slash", " ", "very " + strings.Repeat("long ", 40),
+	// shapes of upstream lines with a damaged domain part
+	"[/]quic://dns.example.net", "[//]1.1.1.1", "[/", "[/a/", "[/a/]", "[/]", "quic://", "[/x/]quic://h.example:1", "]/[",
 }
 
 // vfScalarPool holds scalars of every type the YAML decoder can produce.
